@@ -4,6 +4,7 @@ from __future__ import annotations
 import builtins
 import dataclasses
 import itertools
+import json
 import keyword
 import random
 import re
@@ -48,6 +49,12 @@ def plan(tier, seed):
     shards.append({"kind": "lists"})
     shards.append({"kind": "random", "seed": seed, "n": 600 if tier == "quick" else 20000})
     shards.append({"kind": "protoc", "seed": seed, "n": 40 if tier == "quick" else 400})
+    # names through the REAL plugin and runtime: type names equal to names the runtime imports, deprecated fields whose
+    # proto name is not their Python name, builtin-named fields under typing.310 -- every message is constructed and its
+    # to_dict output fed back to from_dict
+    for it, opts in (({"kind": "extra", "name": "named_like_library"}, ""), ({"kind": "extra", "name": "deprecated_rpc_only"}, ""),
+                     ({"kind": "features"}, ""), ({"kind": "features"}, "typing.310"), ({"kind": "extra", "name": "named_like_library"}, "typing.310")):
+        shards.append({"kind": "generated", "item": it, "opts": opts, "seed": seed})
     return shards
 
 
@@ -331,6 +338,8 @@ def run_shard(shard) -> Result:
                 check_identifier(x, res, naming, bp)
     elif k == "protoc":
         _protoc_sample(shard, res, naming)
+    elif k == "generated":
+        _generated(shard, res)
     return res
 
 
@@ -386,12 +395,77 @@ def _protoc_sample(shard, res: Result, naming):
         b.cleanup()
 
 
+def _generated(shard, res: Result):
+    import warnings
+
+    from ..values import BP, Gen
+
+    w0 = {"kind": "generated", "item": shard["item"], "opts": shard["opts"], "seed": shard["seed"]}
+    try:
+        b = corpus.build_item(shard["item"], shard["opts"])
+    except BuildError as e:
+        # builtin-named fields under the non-default options are C18's known findings; the default options must build
+        if shard["opts"]:
+            res.note("generated-set-unbuildable-under-option")
+            return
+        res.violation("plugin", ["generate-or-import", corpus.item_name(shard["item"]), e.stage], f"{e.detail[-700:]}", w0)
+        return
+    try:
+        rng = random.Random(f"c19g-{shard['seed']}")
+        g = Gen(b, rng, max_depth=2)
+        bpk = BP(b)
+        import betterproto as bp
+
+        for mi in b.user_messages():
+            cls = b.bp_class(mi.full_name)
+            for shape_ in ("maximal", "random", "random"):
+                tree = g.tree(mi, 0, shape_)
+                res.counters["generated_roundtrips"] += 1
+                res.evaluations += 1
+                res.distinct_extra += 1
+                ww = dict(w0, msg=mi.full_name)
+                try:
+                    with warnings.catch_warnings():
+                        warnings.simplefilter("ignore")
+                        m = bpk.make(mi, tree)
+                        data = bytes(m)
+                except Exception as e:
+                    res.violation("usable", ["construct", mi.full_name.rsplit(".", 1)[-1], "raised:" + type(e).__name__],
+                                  f"{corpus.item_name(shard['item'])} [{shard['opts'] or 'default'}]: {mi.full_name} cannot be constructed / encoded: {e!r}", ww)
+                    break
+                for cname in ("CAMEL", "SNAKE"):
+                    try:
+                        with warnings.catch_warnings():
+                            warnings.simplefilter("ignore")
+                            d = m.to_dict(casing=getattr(bp.Casing, cname))
+                            back = cls().from_dict(json.loads(json.dumps(d)))
+                            same = bytes(back) == data
+                    except TypeError:
+                        res.note("generated-json-not-serialisable")  # bytes / datetime in maps: C04's known findings
+                        continue
+                    except Exception as e:
+                        res.violation("key", ["generated-roundtrip:" + cname, mi.full_name.rsplit(".", 1)[-1], "raised:" + type(e).__name__],
+                                      f"{mi.full_name} [{shard['opts'] or 'default'}]: {e!r}", ww)
+                        continue
+                    if not same:
+                        res.counters["generated_roundtrip_differs"] += 1
+                        lost = [k for k in d if k not in back.to_dict(casing=getattr(bp.Casing, cname))]
+                        if lost:
+                            res.violation("key", ["generated-roundtrip:" + cname, mi.full_name.rsplit(".", 1)[-1], "field-dropped"],
+                                          f"{mi.full_name} [{shard['opts'] or 'default'}]: keys {lost[:5]} of to_dict are not mapped back by from_dict", ww)
+        res.sample({"generated": corpus.item_name(shard["item"]), "options": shard["opts"] or "default", "messages": len(b.user_messages())})
+    finally:
+        b.cleanup()
+
+
 def replay(w):
     import betterproto as bp
     import betterproto.casing  # noqa
     from betterproto.compile import naming
 
     res = Result()
-    if "ident" in w:
+    if w.get("kind") == "generated":
+        _generated(w, res)
+    elif "ident" in w:
         check_identifier(w["ident"], res, naming, bp)
     return res.violations
